@@ -2,6 +2,7 @@ import SC.Proofs.KernSmall
 import SC.Proofs.KernBlocks
 import SC.Model.AsmShape
 import SC.Gen.AsmFacts
+import SC.Proofs.AsmSmall
 /-!
 # C13 — SIMD byte kernels equal their scalar definition at every length and alignment
 
@@ -122,6 +123,39 @@ theorem source_count_loops (sym : String) (hs : sym ∈ ["countbody", "countbody
     ∀ ld ∈ (cntLoop P p mem base len (len + 1) 0 0).2, base ≤ ld.1 ∧ ld.1 + ld.2 ≤ base + len := by
   have hg := extracted_geometry.2 sym hs
   exact count_loops P (by rcases hP with h | h; exact Or.inl (h.trans hg.1); exact Or.inr (h.trans hg.2.1)) p mem base len hlen
+
+/-! #### instruction level: the `len < 16` search paths as they stand in the working tree
+
+`Gen.Asm.small_*` are the blocks `small`, `endofpage`, `failure` of the three search bodies, **regenerated instruction
+by instruction** (mnemonics, registers, displacements, immediates, branch targets) by `tools/asmfacts.py`; `Asm.run` is
+an interpreter for that subset of amd64 (`SC/Model/Asm.lean`).  From the state the bodies' prologues establish (`SI` =
+data, `BX` = length, the needle byte in every lane of `X0`), running the real instruction sequence stores the scalar
+definition's answer through `R8` and performs one 16-byte load that cannot fault — for every memory, base address,
+length below 16 and needle byte.  (Not modelled: the three-instruction lane broadcast of the prologue, the ABI wrappers.) -/
+
+theorem instruction_level_small (mem : Mem) (base len : Nat) (c : UInt8) (h16 : len < 16) (hb : base + 32 < 2 ^ 64) :
+    (Asm.runSmall Gen.Asm.small_indexbytebody (Asm.init mem base len c)).out = some (specIndex (fun b => b == c) mem base len) ∧
+    (Asm.runSmall Gen.Asm.small_indexbytebodyCase (Asm.init mem base len c)).out =
+        some (specIndex (fun b => (b ||| 0x20) == c) mem base len) ∧
+    (Asm.runSmall Gen.Asm.small_indexByteBodyNonASCII (Asm.init mem base len c)).out =
+        some (specIndex (fun b => decide (b ≥ 0x80)) mem base len) := by
+  refine ⟨?_, ?_, ?_⟩
+  · rw [(Asm.small_indexbytebody_correct mem base len c h16 hb).1, small_correct _ mem base len h16]
+  · rw [(Asm.small_indexbytebodyCase_correct mem base len c h16 hb).1, small_correct _ mem base len h16]
+  · rw [(Asm.small_indexByteBodyNonASCII_correct mem base len c h16 hb).1, small_correct _ mem base len h16]
+
+/-- every load those instruction sequences perform lies in a 4096-byte page that holds a byte of the argument -/
+theorem instruction_level_small_safe (mem : Mem) (base len : Nat) (c : UInt8) (h16 : len < 16) (h0 : 0 < len)
+    (hb : base + 32 < 2 ^ 64) :
+    ∀ prog ∈ [Gen.Asm.small_indexbytebody, Gen.Asm.small_indexbytebodyCase, Gen.Asm.small_indexByteBodyNonASCII],
+    ∀ ld ∈ (Asm.runSmall prog (Asm.init mem base len c)).loads, ∀ a, ld.1 ≤ a → a < ld.1 + ld.2 →
+      ∃ b, base ≤ b ∧ b < base + len ∧ a / 4096 = b / 4096 := by
+  intro prog hprog
+  simp only [List.mem_cons, List.mem_nil_iff, or_false] at hprog
+  rcases hprog with rfl | rfl | rfl
+  · rw [(Asm.small_indexbytebody_correct mem base len c h16 hb).2]; exact small_loads_safe _ mem base len h16 h0
+  · rw [(Asm.small_indexbytebodyCase_correct mem base len c h16 hb).2]; exact small_loads_safe _ mem base len h16 h0
+  · rw [(Asm.small_indexByteBodyNonASCII_correct mem base len c h16 hb).2]; exact small_loads_safe _ mem base len h16 h0
 
 /-- the `len < 16` counting path: scalar definition, and no load can fault next to an unmapped page -/
 theorem count_small (p : UInt8 → Bool) (mem : Mem) (base len : Nat) (hlen : len < 16) :
